@@ -51,4 +51,36 @@ def introspectProg (cfg : Config) (now : Time) (q : IntrospectReq) : Prog Out :=
       | .ok r => return .active "refresh_token" r
       | .error _ => return .inactive e
 
+/-- who calls the introspection endpoint (`NewIntrospectionRequest`) -/
+inductive Caller
+  | bearer (tok : Presented) (identical : Bool)   -- `Authorization: Bearer …`; `identical`: the same string as `token`
+  | basic (clientId : String) (secretOk : Bool)    -- `Authorization: Basic …`; `secretOk`: `checkClientSecret` passes
+  | anonymous                                      -- no usable Authorization header
+  deriving Repr, Inhabited
+
+structure IntrospectEndpointReq where
+  caller : Caller
+  q : IntrospectReq
+  deriving Repr, Inhabited
+
+/-- `Fosite.NewIntrospectionRequest` for a POST with a non-empty body: the caller authenticates with an
+    active ACCESS token different from the inspected one, or with client credentials (no public-client
+    shortcut here); only then is the token inspected. -/
+def introspectEndpointProg (cfg : Config) (now : Time) (r : IntrospectEndpointReq) : Prog Out := do
+  let inspect : Prog Out := do
+    match ← introspectProg cfg now r.q with
+    | .active use x => return .active use x
+    | _ => return .inactive .token_inactive
+  match r.caller with
+  | .bearer tok identical =>
+    if identical then return .err .request_unauthorized else
+    match ← introspectProg cfg now { token := tok, hint := .access, scopes := [] } with
+    | .active use _ => if use != "access_token" then return .err .request_unauthorized else inspect
+    | _ => return .err .request_unauthorized
+  | .basic id secretOk =>
+    match ← call (.getClient id) with
+    | .client _ => if secretOk then inspect else return .err .request_unauthorized
+    | _ => return .err .request_unauthorized
+  | .anonymous => return .err .request_unauthorized
+
 end Fosite.Model
